@@ -114,6 +114,12 @@ def run(ctx, drv):
             out["gd"] = call(lambda: I.GenerationalDistance(fresh(ref)).calculate(fresh(sols)))
             out["igd"] = call(lambda: I.InvertedGenerationalDistance(fresh(ref)).calculate(fresh(sols)))
             out["epsind"] = call(lambda: I.EpsilonIndicator(fresh(ref)).calculate(fresh(sols)))
+            if pen is None and all(cv_ == 0 for cv_ in cvs):
+                # IBEA's hypervolume-based fitness of every member (normalised within the set itself); feasible sets only: the
+                # evaluator has no notion of constraint violations
+                fs_ = fresh(sols)
+                r_ = call(C.HypervolumeFitnessEvaluator().evaluate, fs_)
+                out["ibea_fitness"] = r_ if isinstance(r_, str) else [float(getattr(s_, "fitness", float("nan"))) for s_ in fs_]
             if nobjs >= 2:
                 out["hv_ref"] = call(lambda: I.Hypervolume(reference_set=fresh(ref)).calculate(fresh(sols)))
                 mn = [min(-x if False else x for x in col) for col in zip(*R)]
@@ -150,6 +156,11 @@ def run(ctx, drv):
                 same = (a == b) if (isinstance(a, str) or isinstance(b, str)) else (close(a, b, 0.0 if lattice and key.startswith("hv") else 1e-9) or (a != a and b != b))
                 if not same:
                     ctx.fail(f"{key}-changes-under-flip", inp, b, a, "indicators")
+            fa_, fb_ = base.get("ibea_fitness"), other.get("ibea_fitness")
+            if fa_ is not None and fb_ is not None:
+                same_ = (fa_ == fb_) if (isinstance(fa_, str) or isinstance(fb_, str)) else (len(fa_) == len(fb_) and all(close(x_, y_, 1e-7) or (x_ != x_ and y_ != y_) for x_, y_ in zip(fa_, fb_)))
+                if not same_:
+                    ctx.fail("ibea-fitness-changes-under-flip", inp, fb_, fa_, "core.HypervolumeFitnessEvaluator")
             # the model on both sides of the pair (Pareto comparison table on the exact wire)
             for (dr, sl, tag) in ((dirs, bsols, "original"), (fd, fsols, "flipped")):
                 for i in range(min(3, len(sl))):
@@ -159,6 +170,26 @@ def run(ctx, drv):
                             lambda g, exp=exp, inp=inp, tag=tag: None if g == exp else ctx.disagree(f"paretoCompare on the {tag} problem vs implementation on the original", inp, exp, g))
             ctx.case((tuple(map(tuple, pts)), S), 0 < nd_count < len(pts),
                      dict(inp, ranks=base["ranks"], hypervolume=base.get("hv_bounds")) if len(ctx.samples) < 2 and nobjs >= 2 else None)
+    # ---- HypervolumeFitnessEvaluator.hypervolume against the model (Model/HVFit.lean, Props/C10Fit.lean: hvFit_flip), bit for bit:
+    # normalised coordinates inside and outside [0, 1], any directions, against another solution and against the reference point
+    from common import wf as _wf
+    ev_ = C.HypervolumeFitnessEvaluator()
+    for t in range(300 if ctx.quick() else 5000):
+        nobjs = rng.choice([1, 2, 2, 3, 4])
+        dirs = tuple(rng.random() < 0.4 for _ in range(nobjs))
+        p_ = mk_problem(nobjs, dirs, constrained=False)
+        s1_, s2_ = C.Solution(p_), C.Solution(p_)
+        s1_.normalized_objectives = [rng.choice([0.0, 1.0, 0.5, rng.random(), rng.uniform(-0.5, 1.5)]) for _ in range(nobjs)]
+        s2_.normalized_objectives = [rng.choice([0.0, 1.0, rng.random(), rng.uniform(-0.5, 1.5), s1_.normalized_objectives[j_]]) for j_ in range(nobjs)]
+        d_ = rng.randrange(1, nobjs + 1)
+        against_ref = rng.random() < 0.3
+        got = call(ev_.hypervolume, s1_, None if against_ref else s2_, d_)
+        hin = {"maximise": list(dirs), "normalized_1": s1_.normalized_objectives, "normalized_2": None if against_ref else s2_.normalized_objectives, "d": d_, "rho": ev_.rho}
+        exp_ = got if isinstance(got, str) else _wf(float(got))
+        ask(f"hvfit {_wf(float(ev_.rho))} {wlist(dirs, lambda b_: '1' if b_ else '0')} {wlist(s1_.normalized_objectives, _wf)} {0 if against_ref else 1} {wlist(s2_.normalized_objectives, _wf)} {d_}",
+            lambda g, exp_=exp_, hin=hin: None if g == exp_ else ctx.disagree("HypervolumeFitnessEvaluator.hypervolume vs hvFit (Float, bit for bit)", hin, exp_, g))
+        ctx.case(("hvfit", tuple(dirs), tuple(s1_.normalized_objectives), tuple(s2_.normalized_objectives), d_, against_ref), any(dirs))
+    ctx.count("hvfit_cases", 300 if ctx.quick() else 5000)
     # ---- bounded grid archives driven well past their capacity with mutually non-dominated generic points: truncation happens
     # while several cells tie for the highest density; the members kept must not depend on the direction encoding
     for t in range(200 if ctx.quick() else 4000):
